@@ -64,7 +64,7 @@ Fixpoint search_count (x : N) (t : str) : option str :=
   | [] => None
   | _ :: t' =>
     match span_digits t with
-    | (_ :: _ as d, y :: _) => if y =? x then Some d else search_count x t'
+    | ((_ :: _) as d, y :: _) => if y =? x then Some d else search_count x t'
     | _ => search_count x t'
     end
   end.
@@ -126,8 +126,7 @@ Section Subst.
   Definition substitute (nodes procs : val) (cmd : str) : res str :=
     match scan_tokens 0 cmd with
     | [] =>
-      pc <- par procs nodes ;;
-      if containsb launcher_var cmd then Ok (replace launcher_var pc cmd) else Ok cmd
+      if containsb launcher_var cmd then replace_bare nodes procs cmd else Ok cmd
     | toks =>
       mn <- max_of nodes ;;
       mp <- max_of procs ;;
@@ -178,7 +177,6 @@ Definition par_slurm (addl : dict) (procs nodes : val) : res str :=
 (** * LSF: get_parallelize_command (jsrun) *)
 Definition get_default (d : dict) (k : str) (dflt : val) : val :=
   match lookup k d with Some v => v | None => dflt end.
-Definition is_strv (v : val) : nat := match v with VStr _ => 1%nat | _ => 0%nat end.
 Definition par_lsf (addl : dict) (procs nodes : val) : res str :=
   c <- flag lsf_cmd_flags (s "cmd") ;;
   let rs_per_node := get_default addl (s "rs per node") (VInt 1) in
@@ -187,9 +185,7 @@ Definition par_lsf (addl : dict) (procs nodes : val) : res str :=
      conversions and the modulo can raise *)
   _ <- (if truthy nodes then
           p <- int_of procs ;; r <- int_of rs_per_node ;; n <- int_of nodes ;; t <- int_of tasks_per_rs ;;
-          (* the log call multiplies the raw values: two strings cannot be multiplied *)
-          if (r * n * t <? p)%Z && (2 <=? is_strv rs_per_node + is_strv nodes + is_strv tasks_per_rs)%nat
-          then Err Internal else Ok tt
+          Ok tt
         else Ok tt) ;;
   _ <- (if truthy nodes then
           r <- int_of rs_per_node ;; n <- int_of nodes ;; t <- int_of tasks_per_rs ;;
